@@ -282,6 +282,19 @@ Proof.
   lra.
 Qed.
 
+Lemma ln_div_pos a b : 0 < a -> 0 < b -> ln (a / b) = ln a - ln b.
+Proof.
+  intros Ha Hb. unfold Rdiv. rewrite ln_mult; [|exact Ha|apply Rinv_0_lt_compat; exact Hb].
+  rewrite ln_Rinv by exact Hb. ring.
+Qed.
+
+Lemma normal_pdf_pos x mu s : 0 < s -> 0 < normal_pdf x mu s.
+Proof.
+  intros Hs. unfold normal_pdf. apply Rdiv_lt_0_compat; [apply exp_pos|].
+  apply sqrt_lt_R0. pose proof PI_RGT_0.
+  apply Rmult_lt_0_compat; [lra|apply Rmult_lt_0_compat; exact Hs].
+Qed.
+
 Lemma den_e2 : den e2 = 2.
 Proof.
   unfold e2. cbn [den]. unfold Q2R'.
@@ -314,9 +327,10 @@ Proof.
   assert (Hss : 0 < den s * den s) by (apply Rmult_lt_0_compat; exact Hs).
   assert (Hq : 0 < 2 * PI * (den s * den s)) by (apply Rmult_lt_0_compat; assumption).
   assert (Hsq : 0 < sqrt (2 * PI * (den s * den s))) by (apply sqrt_lt_R0; exact Hq).
-  unfold Rdiv at 3. rewrite ln_mult; [|apply exp_pos|apply Rinv_0_lt_compat; exact Hsq].
-  rewrite ln_exp, ln_Rinv by exact Hsq. rewrite ln_sqrt_half by exact Hq.
-  rewrite ln_mult by assumption. rewrite ln_mult by assumption. field. lra.
+  rewrite ln_div_pos; [|apply exp_pos|exact Hsq].
+  rewrite ln_exp. rewrite ln_sqrt_half by exact Hq.
+  rewrite (ln_mult (2 * PI) (den s * den s)) by assumption.
+  rewrite (ln_mult (den s) (den s)) by assumption. field. lra.
 Qed.
 
 (* LogNormalPrior.log_prob x = NormalPrior.log_prob (ln x) - ln x
@@ -327,29 +341,20 @@ Lemma lp_lognormal_correct mu s x : 0 < den s -> 0 < den x ->
 Proof.
   intros Hs Hx. split; [reflexivity|].
   unfold lp_lognormal. cbn [den]. rewrite lp_normal_correct by exact Hs. cbn [den].
-  unfold Rdiv at 2. rewrite ln_mult.
-  - rewrite ln_Rinv by exact Hx. ring.
-  - unfold normal_pdf. apply Rdiv_lt_0_compat; [apply exp_pos|].
-    apply sqrt_lt_R0. pose proof PI_RGT_0.
-    apply Rmult_lt_0_compat; [lra|apply Rmult_lt_0_compat; exact Hs].
-  - apply Rinv_0_lt_compat. exact Hx.
+  rewrite ln_div_pos; [reflexivity|apply normal_pdf_pos; exact Hs|exact Hx].
 Qed.
 
 Lemma lp_halfnormal_correct s x : 0 < den s ->
   den (lp_halfnormal s x) = ln (2 * normal_pdf (den x) 0 (den s)).
 Proof.
   intros Hs. unfold lp_halfnormal. cbn [den]. rewrite den_e2, lp_normal_correct by exact Hs.
-  rewrite den_e0. rewrite ln_mult; [reflexivity|lra|].
-  unfold normal_pdf. apply Rdiv_lt_0_compat; [apply exp_pos|].
-  apply sqrt_lt_R0. pose proof PI_RGT_0.
-  apply Rmult_lt_0_compat; [lra|apply Rmult_lt_0_compat; exact Hs].
+  rewrite den_e0. rewrite ln_mult; [reflexivity|lra|apply normal_pdf_pos; exact Hs].
 Qed.
 
 Lemma lp_uniform_correct a b : den a < den b ->
   den (lp_uniform a b) = ln (1 / (den b - den a)).
 Proof.
-  intros H. unfold lp_uniform. cbn [den]. unfold Rdiv. rewrite Rmult_1_l, ln_Rinv by lra.
-  reflexivity.
+  intros H. unfold lp_uniform. cbn [den]. rewrite ln_div_pos by lra. rewrite ln_1. ring.
 Qed.
 
 Lemma lp_halfcauchy_correct s x : 0 < den s ->
@@ -360,9 +365,8 @@ Proof.
   pose proof PI_RGT_0 as Hpi.
   assert (H1 : 0 < PI * den s) by (apply Rmult_lt_0_compat; lra).
   assert (H2 : 0 < 1 + den x / den s * (den x / den s)) by nra.
-  unfold Rdiv at 3. rewrite ln_mult; [|lra|apply Rinv_0_lt_compat; apply Rmult_lt_0_compat; lra].
-  rewrite ln_Rinv by (apply Rmult_lt_0_compat; lra).
-  rewrite ln_mult by lra. ring.
+  rewrite ln_div_pos; [|lra|apply Rmult_lt_0_compat; lra].
+  rewrite (ln_mult (PI * den s) (1 + den x / den s * (den x / den s))) by lra. ring.
 Qed.
 
 (* GammaPrior: ln ( b^a x^(a-1) exp(-b x) ) - ln Gamma(a), real powers *)
@@ -386,19 +390,15 @@ Lemma lp_smoothedbox_correct a b s x : 0 < den s -> den a < den b ->
         / (1 + (den b - den a) / (sqrt (2 * PI) * den s))).
 Proof.
   intros Hs Hab. unfold lp_smoothedbox. cbn [den]. rewrite lp_normal_correct by exact Hs.
-  rewrite den_e0, den_e1. unfold e_boxdist. cbn [den]. rewrite den_e2, den_e0.
+  unfold e_boxdist. cbn [den]. rewrite den_e2, den_e1.
+  change (Q2R' 0%Qc) with (q 0%Qc). rewrite q_0.
   fold (boxdist (den a) (den b) (den x)).
   assert (Hpi : 0 < sqrt (2 * PI)) by (apply sqrt_lt_R0; pose proof PI_RGT_0; lra).
   assert (Hd : 0 < 1 + (den b - den a) / (sqrt (2 * PI) * den s)).
   { assert (0 < (den b - den a) / (sqrt (2 * PI) * den s)).
     { apply Rdiv_lt_0_compat; [lra|apply Rmult_lt_0_compat; lra]. }
     lra. }
-  unfold Rdiv at 3. rewrite ln_mult.
-  - rewrite ln_Rinv by exact Hd. reflexivity.
-  - unfold normal_pdf. apply Rdiv_lt_0_compat; [apply exp_pos|].
-    apply sqrt_lt_R0. pose proof PI_RGT_0.
-    apply Rmult_lt_0_compat; [lra|apply Rmult_lt_0_compat; exact Hs].
-  - apply Rinv_0_lt_compat. exact Hd.
+  rewrite ln_div_pos; [reflexivity|apply normal_pdf_pos; exact Hs|exact Hd].
 Qed.
 
 (* inside the box the distance is 0: the density is flat there *)
